@@ -34,4 +34,39 @@ theorem field_events_inside_execution (cfg : Cfg) (r : Request)
         List.mem_nil_iff, or_false] at he
       rcases he with rfl | rfl | rfl | rfl | rfl | rfl <;> rfl
 
+
+/-- **deferred_field_middlewares_exit_at_submission** (finding N8, the exact form): for a field whose resolver the runtime
+    defers (`runtime.wrap_callable` submits it), what `resolve_field` emits at the moment it is called is
+    `field+ · mw> (last middleware first) · mw< (list order)` and NOTHING else - every middleware has exited, the resolver has
+    not been invoked (`call` / `ret` / `field-` come with the completion of the task it leaves behind). The nesting
+    `mw> call ret mw<` holds for synchronous resolvers (`field_hooks_contiguous_sequential`, `chunk`). -/
+theorem deferred_field_middlewares_exit_at_submission (cfg : Cfg) (path : Path) (key : String) (o : OutKind) (c : Comp)
+    (ho : o ≠ .argError) :
+    (startField cfg path (.mk key true o c)).1
+        = [Ev.hook (.field (path ++ [.key key]) true)]
+          ++ cfg.mws.reverse.map (fun i => Ev.mwEnter i (path ++ [.key key]))
+          ++ cfg.mws.map (fun i => Ev.mwExit i (path ++ [.key key]))
+      ∧ Ev.call (path ++ [.key key]) ∉ (startField cfg path (.mk key true o c)).1
+      ∧ (startField cfg path (.mk key true o c)).2.length = 1 := by
+  have hm := middleware_once_in_order submitOnly cfg.mws (path ++ [.key key])
+  have heq : (startField cfg path (.mk key true o c)).1
+      = [Ev.hook (.field (path ++ [.key key]) true)]
+        ++ cfg.mws.reverse.map (fun i => Ev.mwEnter i (path ++ [.key key]))
+        ++ cfg.mws.map (fun i => Ev.mwExit i (path ++ [.key key])) := by
+    cases o with
+    | argError => exact absurd rfl ho
+    | raises => simp [startField, fieldResolver, fieldStart, hm, submitOnly]
+    | returns => simp [startField, fieldResolver, fieldStart, hm, submitOnly]
+  refine ⟨heq, ?_, ?_⟩
+  · rw [heq]; simp
+  · cases o with
+    | argError => exact absurd rfl ho
+    | raises => simp [startField]
+    | returns => simp [startField]
+
+/-- instance: two middlewares, deferred resolver: `field+ mw>1 mw>0 mw<0 mw<1` (the real trace of the probe `middleware-deferred`) -/
+example : (startField ⟨[0, 1]⟩ [] (.mk "a" true .returns .leaf)).1
+    = [.hook (.field [.key "a"] true), .mwEnter 1 [.key "a"], .mwEnter 0 [.key "a"], .mwExit 0 [.key "a"], .mwExit 1 [.key "a"]] := by
+  decide
+
 end PyGql.Props.C16
